@@ -71,10 +71,10 @@ PROPS = {
         "exhaustive": {"quick": False, "thorough": False},
         "assumptions": COMMON_ASSUME + ["a Vec<u8> never exceeds isize::MAX bytes (body lengths < 2^63)",
                                         "the parser is told the arity of every invoked method (collected from the case)"],
-        "level_text": "Theorem c06_roundtrip: for every well-formed tree over all exported constructors except Field and "
-                      "ResourceTemplate (any shape, depth, body size; both build profiles) the Spec parser reads back exactly the "
-                      "tree and stops exactly at the end; PARTIAL for Field lists and ResourceTemplate (the latter is C10's theorem), "
-                      "which rest on the parser being run on the crate's bytes plus model/implementation correspondence.",
+        "level_text": "Theorem c06_roundtrip: for every well-formed tree over all exported AML constructors, Field lists and "
+                      "ResourceTemplates included (any shape, depth, body size; both build profiles), the Spec parser reads back exactly "
+                      "the tree and stops exactly at the end; a bare resource descriptor is not an AML object and only occurs as a child of "
+                      "a ResourceTemplate, whose payload the theorem returns as bytes (their layout is C10's subject).",
     },
     "C10": {
         "rule": "cases = single descriptors of all 7 kinds x 3 widths with random and boundary arguments, all flag combinations; "
